@@ -44,7 +44,7 @@ NO_PANIC_EXACT = {
     "<std::result::Result<T, E> as std::ops::Try>::branch",
     "<std::result::Result<T, F> as std::ops::FromResidual<std::result::Result<std::convert::Infallible, E>>>::from_residual",
     "<I as std::iter::IntoIterator>::into_iter", "core::slice::iter::<impl std::iter::IntoIterator for &'a mut [T]>::into_iter", "core::slice::iter::<impl std::iter::IntoIterator for &'a [T]>::into_iter",
-    "std::iter::Iterator::take_while", "std::iter::Iterator::count", "std::iter::Iterator::map", "std::iter::Iterator::filter", "std::iter::Iterator::rev", "std::iter::Iterator::take", "std::iter::Iterator::chain", "std::iter::Iterator::all", "std::iter::Iterator::any", "std::iter::Iterator::position", "std::iter::Iterator::collect", "std::iter::Iterator::copied", "std::iter::Iterator::cloned", "std::iter::Iterator::fold", "std::iter::Iterator::last", "std::iter::Iterator::nth", "std::iter::Iterator::sum", "std::iter::Iterator::find", "std::iter::Iterator::by_ref",
+    "std::iter::Iterator::take_while", "std::iter::Iterator::count", "std::iter::Iterator::map", "std::iter::Iterator::filter", "std::iter::Iterator::rev", "std::iter::Iterator::take", "std::iter::Iterator::chain", "std::iter::Iterator::all", "std::iter::Iterator::any", "std::iter::Iterator::position", "std::iter::Iterator::collect", "std::iter::Iterator::copied", "std::iter::Iterator::cloned", "std::iter::Iterator::fold", "std::iter::Iterator::last", "std::iter::Iterator::nth", "std::iter::Iterator::find", "std::iter::Iterator::by_ref",
     "core::slice::<impl [T]>::first", "core::slice::<impl [T]>::last", "core::slice::<impl [T]>::get", "core::slice::<impl [T]>::get_mut", "core::slice::<impl [T]>::split_first", "core::slice::<impl [T]>::split_first_mut", "core::slice::<impl [T]>::split_last", "core::slice::<impl [T]>::split_last_mut", "core::slice::<impl [T]>::starts_with", "core::slice::<impl [T]>::ends_with", "core::slice::<impl [T]>::contains", "core::slice::<impl [T]>::reverse", "core::slice::<impl [T]>::fill", "core::slice::<impl [T]>::to_vec", "core::slice::<impl [T]>::as_ptr",
     "std::option::Option::<T>::map", "std::option::Option::<T>::map_or", "std::option::Option::<T>::is_some", "std::option::Option::<T>::is_none", "std::option::Option::<T>::unwrap_or", "std::option::Option::<T>::unwrap_or_default", "std::option::Option::<T>::ok_or", "std::result::Result::<T, E>::map", "std::result::Result::<T, E>::map_err", "std::result::Result::<T, E>::is_ok", "std::result::Result::<T, E>::is_err", "std::result::Result::<T, E>::ok", "std::result::Result::<T, E>::and_then",
     "std::iter::Iterator::enumerate", "std::iter::Iterator::zip", "std::iter::Iterator::skip", "std::iter::Iterator::cycle", "std::iter::Iterator::for_each", "std::iter::Iterator::next",
@@ -67,12 +67,28 @@ NO_PANIC_EXACT = {
     "std::ops::RangeInclusive::<Idx>::new", "std::ops::RangeInclusive::<Idx>::contains", "std::ops::Range::<Idx>::contains", "std::ops::RangeInclusive::<Idx>::start", "std::ops::RangeInclusive::<Idx>::end", "std::mem::replace", "core::mem::replace", "std::mem::take", "core::mem::take", "std::mem::swap", "core::mem::swap", "std::array::from_fn", "core::array::from_fn", "std::iter::ExactSizeIterator::len", "std::mem::size_of", "core::mem::size_of", "std::vec::Vec::<T>::new", "std::vec::Vec::<T, A>::extend_from_slice", "std::vec::Vec::<T, A>::push", "std::vec::Vec::<T, A>::as_slice", "std::vec::Vec::<T, A>::is_empty",
     "<digest::generic_array::GenericArray<T, N> as std::ops::Deref>::deref", "<std::vec::Vec<T, A> as std::ops::Deref>::deref", "<std::vec::Vec<T, A> as std::ops::DerefMut>::deref_mut",
     "std::clone::Clone::clone", "std::default::Default::default",
+    # comparison / hashing / formatting plumbing of hand-written trait impls: total functions
+    "std::cmp::Ordering::then_with", "std::cmp::Ordering::then", "std::cmp::Ordering::reverse", "std::cmp::Ordering::is_eq", "std::cmp::Ordering::is_ne", "std::cmp::Ordering::is_lt", "std::cmp::Ordering::is_gt", "std::cmp::Ordering::is_le", "std::cmp::Ordering::is_ge",
+    "std::array::<impl std::cmp::Ord for [T; N]>::cmp", "std::array::<impl std::cmp::PartialOrd for [T; N]>::partial_cmp", "std::cmp::Ord::cmp", "std::cmp::PartialOrd::partial_cmp",
+    "core::slice::cmp::<impl std::cmp::Ord for [T]>::cmp", "core::slice::cmp::<impl std::cmp::PartialOrd for [T]>::partial_cmp", "core::slice::cmp::<impl std::cmp::PartialEq<[U]> for [T]>::eq", "core::slice::cmp::<impl std::cmp::PartialEq<[U]> for [T]>::ne",
+    "std::array::<impl std::hash::Hash for [T; N]>::hash", "std::hash::Hash::hash", "std::hash::Hasher::write", "std::hash::Hasher::write_u8", "std::hash::Hasher::write_usize",
+    "std::fmt::Formatter::<'a>::debug_struct", "std::fmt::DebugStruct::<'a, 'b>::field", "std::fmt::DebugStruct::<'a, 'b>::finish", "std::fmt::DebugStruct::<'a, 'b>::finish_non_exhaustive",
+    "std::fmt::Formatter::<'a>::debug_tuple", "std::fmt::DebugTuple::<'a, 'b>::field", "std::fmt::DebugTuple::<'a, 'b>::finish", "std::fmt::Formatter::<'a>::debug_list", "std::fmt::DebugList::<'a, 'b>::entries", "std::fmt::DebugList::<'a, 'b>::entry", "std::fmt::DebugList::<'a, 'b>::finish",
+    "std::fmt::Formatter::<'a>::write_fmt", "std::fmt::Formatter::<'a>::alternate", "std::fmt::Debug::fmt", "std::fmt::Display::fmt",
+    "<D as digest::Digest>::new_with_prefix", "<T as digest::Mac>::new",
+    "core::slice::<impl [[T; N]]>::as_flattened", "core::slice::<impl [[T; N]]>::as_flattened_mut", "std::array::<impl [T; N]>::map", "std::array::<impl [T; N]>::each_ref", "std::array::<impl [T; N]>::each_mut",
+    "std::iter::Iterator::try_for_each", "std::iter::Iterator::try_fold", "std::iter::Iterator::scan", "std::iter::Iterator::inspect", "std::iter::Iterator::peekable", "std::iter::Iterator::min", "std::iter::Iterator::max", "std::iter::Iterator::eq", "std::iter::Iterator::ne", "std::iter::Iterator::rposition", "std::iter::Iterator::flatten", "std::iter::Iterator::flat_map", "std::iter::Iterator::filter_map", "std::iter::Iterator::find_map", "std::iter::Iterator::skip_while", "std::iter::Iterator::map_while", "std::iter::Iterator::fuse",
+    "std::char::convert::<impl std::convert::TryFrom<char> for u8>::try_from", "std::char::convert::<impl std::convert::From<u8> for char>::from", "std::char::convert::<impl std::convert::From<char> for u32>::from",
+    "std::option::Option::<T>::transpose", "std::option::Option::<T>::zip", "std::option::Option::<T>::or", "std::option::Option::<T>::or_else", "std::option::Option::<T>::xor", "std::option::Option::<T>::take", "std::option::Option::<T>::is_some_and", "std::option::Option::<T>::is_none_or", "std::option::Option::<T>::as_ref", "std::option::Option::<T>::as_mut", "std::option::Option::<&T>::copied", "std::option::Option::<&T>::cloned",
+    "std::result::Result::<T, E>::is_ok_and", "std::result::Result::<T, E>::is_err_and", "std::result::Result::<T, E>::err", "std::result::Result::<T, E>::as_ref", "std::result::Result::<T, E>::unwrap_or_default", "std::result::Result::<T, E>::map_or_else",
+    "std::cmp::min", "std::cmp::max", "std::cmp::Ord::min", "std::cmp::Ord::max",
 }
 NO_PANIC_PREFIX = (
     "<&u8 as std::ops::BitXor", "<u8 as std::ops::BitXor", "<&u8 as std::ops::BitAnd", "<u8 as std::ops::BitAnd", "<&u8 as std::ops::BitOr", "<u8 as std::ops::BitOr", "<std::iter::Zip<", "<std::slice::ChunksExact<",
     "std::convert::num::<impl std::convert::From<", "core::convert::num::<impl std::convert::From<", "<std::iter::Map<", "<std::iter::TakeWhile<", "<std::iter::Rev<", "<std::iter::Take<", "<std::iter::Chain<", "<std::iter::Copied<", "<std::iter::Cloned<", "<std::slice::ChunksExact<", "<std::ops::Range<", "std::iter::range::<impl std::iter::Iterator for std::ops::Range<",
     "std::convert::num::ptr_try_from_impls::", "std::convert::num::<impl std::convert::TryFrom<", "core::convert::num::<impl std::convert::TryFrom<", "core::num::<impl u", "core::num::<impl i", "std::char::methods::<impl char>::", "<std::slice::Iter", "<std::slice::IterMut", "<std::iter::Enumerate<", "<std::iter::Zip<", "<std::iter::StepBy<", "<std::iter::Skip<",
     "num_bigint::bigint::addition::", "num_bigint::bigint::subtraction::", "num_bigint::bigint::multiplication::", "num_bigint::bigint::convert::",
+    "std::cmp::impls::<impl std::cmp::Ord for ", "std::cmp::impls::<impl std::cmp::PartialOrd for ", "std::cmp::impls::<impl std::cmp::PartialEq for ", "std::hash::impls::<impl std::hash::Hash for ",
 )
 # methods of the prefix-allowed impls (integers, char, iterator adaptors) that DO have a documented
 # panic condition: never covered by a prefix
